@@ -50,7 +50,7 @@ Ltac kill_compact Hs Hhub Hlen :=
       | H : m_indexed ?m < length (m_committed ?m) |- _ =>
           let x := fresh "x" in let rest := fresh "rest" in let Hhi := fresh "Hhi" in
           destruct (m_hi m) as [|x rest] eqn:Hhi;
-          [ exfalso; clear - Hlen Hhi H; try rewrite Hhi in Hlen; simpl in Hlen; lia | cbn [firstn skipn] in * ]
+          [ exfalso; clear - Hlen Hhi H; try rewrite Hhi in Hlen; simpl in Hlen; lia | change (firstn 1 (x :: rest)) with [x] in *; change (skipn 1 (x :: rest)) with rest in * ]
       end.
 
 Ltac set_cases i j :=
@@ -68,8 +68,7 @@ Proof.
   intros [I1 I2 I3 I4 I5 I6 Hhub] St Hs. pose proof I2 as Hlen. constructor.
   - inversion St; subst; proj; kill_compact Hs Hhub Hlen; rewrite ?app_length; simpl; lia.
   - inversion St; subst; proj; kill_compact Hs Hhub Hlen; rewrite ?app_length; simpl; try lia.
-    destruct (m_hi m) as [|x rest] eqn:Hhi. Show.
-    match goal with H : m_hi m = _ |- _ => rewrite H in I2 end. simpl in I2. lia.
+    try rewrite Hhi in *; simpl in *; lia.
   - inversion St; subst; proj; kill_compact Hs Hhub Hlen; intros j Hj; try (rewrite set_neq by lia); apply I3; lia.
   - inversion St; subst; proj; kill_compact Hs Hhub Hlen; intros j Hj.
     1:{ destruct (Nat.eq_dec j (m_n m)) as [->|Hn].
@@ -152,7 +151,7 @@ Proof.
       * rewrite set_eq. auto.
       * assert (j <> i) by (intros ->; eapply Hnot; eauto). rewrite set_neq by auto. auto.
     + assert (j <> i) by (intros ->; eapply Hnot; eauto). rewrite set_neq by auto. auto.
-    + rewrite <- app_assoc in Hj. simpl in Hj. match goal with H : m_hi m = _ |- _ => rewrite <- H in Hj end. auto.
+    + rewrite <- app_assoc in Hj. simpl in Hj. auto.
     + auto.
     + apply in_mid in Hj as [->|Hj].
       * rewrite set_eq. split; auto.
@@ -173,7 +172,7 @@ Proof.
     + rewrite app_assoc. apply (NoDup_Add (Add_app i (m_lo m ++ m_hi m) [])). rewrite app_nil_r.
       split; auto. eapply Hnot; eauto.
     + apply nodup_mid; auto. eapply Hnot; eauto.
-    + rewrite <- app_assoc. simpl. match goal with H : m_hi m = _ |- _ => rewrite <- H end. auto.
+    + rewrite <- app_assoc. simpl. auto.
     + apply nodup_mid; auto. eapply Hnot1; eauto.
     + apply nodup_mid; auto. eapply Hnot; eauto.
   - (* i_complete *)
@@ -189,7 +188,7 @@ Proof.
       * left. apply in_mid; auto.
       * destruct (B3 j Hj Ej) as [H'|H']; auto. left. apply in_mid; auto.
     + set_cases i j; [discriminate|auto].
-    + rewrite <- app_assoc. simpl. match goal with H : m_hi m = _ |- _ => rewrite <- H end. auto.
+    + rewrite <- app_assoc. simpl. auto.
     + auto.
     + set_cases i j.
       * left. apply in_mid; auto.
@@ -222,7 +221,7 @@ Proof.
           match goal with H : m_phase m i = _ |- _ => rewrite H in P end. simpl in P. tauto. }
     + assert (y <> i) by (intros ->; eapply Hnot; eauto). rewrite set_neq by auto. eauto.
     + assert (y <> i) by (intros ->; eapply Hnot; eauto). rewrite set_neq by auto. eauto.
-    + match goal with H : m_hi m = _ |- _ => rewrite H in B4 end.
+    + try (rewrite Hhi in B4).
       destruct (B4 (S j) y Hy) as (w & ? & ? & ?). exists w. repeat split; auto.
       replace (S (m_indexed m) + j + 1) with (m_indexed m + S j + 1) by lia. auto.
     + eauto.
@@ -372,8 +371,7 @@ Proof.
     + assert (x <> i) by (intros ->; eapply Hnot; eauto using lo_in_lin). rewrite set_neq by auto. auto.
     + assert (x <> i) by (intros ->; eapply Hnot; eauto using hi_in_lin). rewrite set_neq by auto. auto.
   - (* index *)
-    match goal with H : m_hi m = _ |- _ => pose proof H as Hhi end.
-    rewrite Hhi in R2. simpl in R2.
+    try rewrite Hhi in R2. simpl in R2.
     destruct R2 as (r & s1 & Hr & Hst & Hrest).
     assert (Hx0 : nth_error (m_hi m) 0 = Some x) by (rewrite Hhi; reflexivity).
     destruct (i_hi _ _ B 0 x Hx0) as (w & Hc & Hrs & _).
@@ -504,7 +502,7 @@ Proof.
     eapply rt_ordered_map_ext; [|exact T]. intros a b Ha Hb Hn (r & E & L). proj.
     apply Hn. exists r; auto.
   - (* index *)
-    rewrite <- app_assoc. simpl. match goal with H : m_hi m = _ |- _ => rewrite <- H end. exact T.
+    rewrite <- app_assoc. simpl. exact T.
   - (* read1 *) exact T.
   - (* read2 *)
     eapply rt_insert with (f := op_at m); proj; auto.
@@ -639,4 +637,14 @@ Proof.
     + now apply apply_precond_pre.
     + now rewrite set_eq.
   - intros Hl. inversion St; subst; proj; auto. exfalso. eapply Hl; reflexivity.
+Qed.
+
+(* premises satisfiable: a reachable state with a pending call and nothing answered from a stale index *)
+Example reach_nonempty : exists m, reach true m /\ m_split m = [] /\ m_n m = 1.
+Proof.
+  eexists. split; [|split].
+  - eapply reach_step; [apply reach_init|].
+    exact (s_invoke true m_init (CW (WSet [(0, 1)%N] [])) false ltac:(discriminate)).
+  - reflexivity.
+  - reflexivity.
 Qed.
